@@ -512,25 +512,26 @@ func run(c *vf.Ctx) {
 			return out
 		}, &idx)
 	} else {
-		// thorough: all ordered pairs of the 10-row programs with 1 preemption ...
+		// thorough: 10-row programs, every program against itself, its three successors, the API program
+		// and the mixed program, with 1 preemption ...
 		n := len(progs)
-		all := func(int) []int {
-			out := make([]int, n)
-			for i := range out {
-				out[i] = i
+		near := func(m int) func(i int) []int {
+			return func(i int) []int {
+				seen := map[int]bool{}
+				var out []int
+				for _, j := range []int{i, (i + 1) % m, (i + 2) % m, (i + 3) % m, m - 2, m - 1} {
+					if !seen[j] {
+						seen[j] = true
+						out = append(out, j)
+					}
+				}
+				return out
 			}
-			return out
 		}
-		stageB(c, progs, 1, all, &idx)
-		// ... and all unordered pairs of 2-row programs with 2 preemptions
+		stageB(c, progs, 1, near(n), &idx)
+		// ... and the same neighbourhoods of 2-row programs with 2 preemptions
 		tiny := programsN(true, 2)
-		stageB(c, tiny, 2, func(i int) []int {
-			var out []int
-			for j := i; j < len(tiny); j++ {
-				out = append(out, j)
-			}
-			return out
-		}, &idx)
+		stageB(c, tiny, 2, near(len(tiny)), &idx)
 	}
 	stageC(c)
 }
